@@ -91,6 +91,19 @@ def families(tier):
             out.append(dict(prop='C04', family='c04.after_timeout', id=f'c04/after-tmo-{b1}{b2}-p{int(par)}-{cshape}-o{"".join(order)}',
                             cfg=dict(bound=3 if deep else 2, cap=20000 if deep else 2500, window=0.8, max_targets=2), params=dict(nb=len(names), ybus=b2, k=0, shape='after_timeout', warm=False, extra=False, fwd='none'),
                             scn=dict(buses={b: dict(parallel=(par and b == 'A')) for b in names}, order=order, forwards=[], handlers=hs, main=main, actors=[], settle=2.0)))
+    # the awaited child, or a fire-and-forget grandchild the await has to wait for, is an instance of a subclass that is FALSY (an empty batch event)
+    for ybus, k, where in itertools.product('AB', (0, 1), ('child', 'grandchild')):
+        names = ['A', 'B'] if ybus == 'B' else ['A']
+        if where == 'child':
+            hs = [dict(bus='A', pat='P', name='hp', prog=[('disp', ybus, 'E', 'late')] + [('pause',)] * k + [('await', 'E'), ('ret', 1)]), dict(bus=ybus, pat='E', name='he', prog=[('pause',), ('ret', 2)])]
+        else:
+            hs = [dict(bus='A', pat='P', name='hp', prog=[('disp', ybus, 'C', 'late')] + [('pause',)] * k + [('await', 'C'), ('ret', 1)]),
+                  dict(bus=ybus, pat='C', name='hc', prog=[('disp', ybus, 'E', 'ff'), ('ret', 2)]), dict(bus=ybus, pat='E', name='he', prog=[('pause',), ('ret', 3)])]
+        hs.append(dict(bus='A', pat='X', name='hx', prog=[('ret', 0)]))
+        for order in ([names] if len(names) == 1 else [names, names[::-1]]):
+            out.append(dict(prop='C04', family='c04.falsy_child_event', id=f'c04/falsy-{where}-{ybus}-k{k}-o{"".join(order)}', cfg=dict(bound=3 if deep else 2, cap=20000 if deep else 2500, window=0.25, max_targets=2),
+                            params=dict(nb=len(names), ybus=ybus, k=k, shape='falsy', warm=False, extra=False, fwd='none'),
+                            scn=dict(buses={b: {} for b in names}, order=order, forwards=[], handlers=hs, main=[('disp', 'A', 'P', 'late'), ('disp', 'A', 'X', 'ff'), ('await', 'P')], actors=[], settle=2.0)))
     # the grammar-generated corpus shared by the bus properties (vsched/gen.py), judged by this property's oracle
     from .. import gen
     out += gen.family('C04', tier, params=dict(k=0), timeouts=(None,))
